@@ -194,8 +194,8 @@ Fixpoint run_cops_s (f : nat) (F : list nat) (m : nmap) (os : list cop) : option
   end.
 
 Section SafeModel.
-  Variable gt : nat -> nat -> N -> N -> N * list cop.
-  Variable pl : nat -> nat -> N -> N -> list cop.
+  Variable gt : nmap -> nat -> nat -> N -> N -> N * list cop.
+  Variable pl : nmap -> nat -> nat -> N -> N -> list cop.
 
   Definition get_self_s (f : nat) (F : list nat) (s : state) (x : nat) (now : N) : option state :=
     if valid (nd s x) then Some s
@@ -203,7 +203,7 @@ Section SafeModel.
       let k := ngt (nd s x) in
       let prev := sched (nd s x) in
       let m1 := upd (nd s) x (set_ngt (set_valid (nd s x) true) (S k)) in
-      let r := gt x k now prev in
+      let r := gt m1 x k now prev in
       match run_cops_s f (x :: F) m1 (snd r) with
       | None => None
       | Some m2 => Some (mkSt (upd m2 x (set_sched (m2 x) (N.min (fst r) NEVER)))
@@ -370,7 +370,7 @@ Proof.
 Qed.
 
 Section SafeSweep.
-  Variable gt : nat -> nat -> N -> N -> N * list cop.
+  Variable gt : nmap -> nat -> nat -> N -> N -> N * list cop.
 
   Lemma prot_upd_other F m x n : ~ In x F -> prot F m -> prot F (upd m x n).
   Proof.
@@ -385,7 +385,7 @@ Section SafeSweep.
     intros Hg Hp Hrn Hpar Hal Hx H. unfold get_self_s in H. destruct (valid (nd s x)) eqn:Hv.
     - inversion H; subst s1. split; [assumption|]. simpl. auto.
     - set (m1 := upd (nd s) x (set_ngt (set_valid (nd s x) true) (S (ngt (nd s x))))) in *.
-      destruct (run_cops_s f (x :: F) m1 (snd (gt x (ngt (nd s x)) now (sched (nd s x))))) as [m2|] eqn:Hr; [|discriminate].
+      destruct (run_cops_s f (x :: F) m1 (snd (gt m1 x (ngt (nd s x)) now (sched (nd s x))))) as [m2|] eqn:Hr; [|discriminate].
       inversion H; subst s1. simpl. clear H.
       assert (Hg1 : Good G m1).
       { unfold m1. apply Good_scalar_upd;
@@ -467,8 +467,8 @@ End SafeSweep.
 (* ------------------------------------------------------------------ reachable states, the reported wake-up time *)
 
 Section SafeReach.
-  Variable gt : nat -> nat -> N -> N -> N * list cop.
-  Variable pl : nat -> nat -> N -> N -> list cop.
+  Variable gt : nmap -> nat -> nat -> N -> N -> N * list cop.
+  Variable pl : nmap -> nat -> nat -> N -> N -> list cop.
 
   (* recalc_min_safe: GetPulseTime() callbacks may perform any operations that leave the running recalculations
      alone.  After the sweep (which is a run of the plain model) every node attached below the root is valid, nothing
@@ -553,7 +553,7 @@ End SafeReach.
    stack (and whose Pulse() callbacks perform no operations): after the recalculation sweep every attached node is
    valid, and Pulse() runs on exactly the nodes attached then whose requested time is <= now *)
 Theorem cycle_exact_safe gt pl :
-  (forall x k now st, pl x k now st = []) ->
+  (forall m x k now st, pl m x k now st = []) ->
   forall f s r now s',
     (now < NEVER)%N -> Good nobody (nd s) -> is_root (nd s) r = true ->
     step_s gt pl f s (TCycle r now) = Some s' ->
@@ -585,13 +585,13 @@ Proof. vm_compute. reflexivity. Qed.
 
 (* ... while a history whose GetPulseTime() callbacks invalidate a sibling, detach another one and destroy a third is
    accepted (so the theorems above are not vacuous for callbacks that perform operations) *)
-Definition sf_gt : nat -> nat -> N -> N -> N * list cop :=
-  fun x k _ _ => match x, k with
+Definition sf_gt : nmap -> nat -> nat -> N -> N -> N * list cop :=
+  fun _ x k _ _ => match x, k with
                  | 1, 0 => (7%N, [CInval 2 true; CDetach 0 3; CDestroy 4])
                  | 2, _ => (5%N, [])
                  | _, _ => (NEVER, [])
                  end.
-Definition sf_pl : nat -> nat -> N -> N -> list cop := fun _ _ _ _ => [].
+Definition sf_pl : nmap -> nat -> nat -> N -> N -> list cop := fun _ _ _ _ _ => [].
 Definition sf_ops : list PulseModel.top :=
   [TNew 0; TNew 1; TNew 2; TNew 3; TNew 4; TOp (CAttach 0 2); TOp (CAttach 0 3); TOp (CAttach 0 4); TOp (CAttach 0 1);
    TCycle 0 1%N; TCycle 0 6%N].
